@@ -24,7 +24,7 @@ def generate(tier, seed):
     rng = C.rng_for(seed, "C14")
     lines, nt = [], set()
     pairs = list(itertools.product(VALS, repeat=2))
-    if tier == "quick": pairs = rng.sample(pairs, 350)
+    if tier == "quick": pairs = rng.sample(pairs, min(len(pairs), 1000))
     for a, b in pairs:
         how = rng.choice(["one-text", "two-texts", "constructed"])
         if how == "one-text":
@@ -56,10 +56,10 @@ def generate(tier, seed):
     seqs = []
     for n in range(1, maxlen + 1):
         allseq = list(itertools.product(ops, repeat=n))
-        lim = 1500 if tier == "quick" else 30000
+        lim = 5000 if tier == "quick" else 100000
         if len(allseq) > lim: allseq = rng.sample(allseq, lim)
         seqs += allseq
-    for _ in range(150 if tier == "quick" else 3000):
+    for _ in range(500 if tier == "quick" else 10000):
         n = rng.randint(5, 60 if tier == "quick" else 200)
         seqs.append([(rng.choice(["put", "get", "put2"]), rng.choice(keys)) for _ in range(n)])
     for sq in seqs:
